@@ -357,10 +357,14 @@ class Scen:
         self.Rxyz = Rq
         self.cs = [(val(cos(D(v))), val(sin(D(v)))) for v in self.qv]
         self.c1 = self.cs[1][0]
-        # omega: angular velocity of M in F expressed in M, as determined by the chart rates (independent of the code under test)
+        # omega: angular velocity of M in F expressed in M, as determined by the chart rates r. Written here independently of the code
+        # under test (Kane, body-three 1-2-3, inverse relation: no division) and CERTIFIED by lemma chart.L1: d/dt Rxyz(q) == Rxyz(q) [omega]x
         Rq_full = S.Rx(D(self.qv[0], self.r[0])) * S.Ry(D(self.qv[1], self.r[1])) * S.Rz(D(self.qv[2], self.r[2]))
         self.Rq_full = Rq_full
-        self.omega = axial(plain(~Rq_full) * dpart(Rq_full))
+        (c0, s0), (c1, s1), (c2, s2) = [(D(a), D(b)) for a, b in self.cs]
+        r0, r1, r2 = [D(x) for x in self.r]
+        self.omega = Vec(c1 * c2 * r0 + s2 * r1, -(c1 * s2) * r0 + c2 * r1, s1 * r0 + r2)
+        self.omegaF = plain(Rq_full) * self.omega                    # the same angular velocity expressed in F
         Rg = Rquat(self.e)
         pF, pM = v3(t + "pF"), v3(t + "pM")
         self.pF, self.pM = pF, pM
@@ -373,7 +377,7 @@ class Scen:
             return Mat([[dd(val(Rv.m[i][j]), val(Rd.m[i][j])) for j in range(3)] for i in range(3)])
         def dualvec(pv, v): return Vec(*[dd(val(pv[i]), val(v[i])) for i in range(3)])
         self.counter = {}
-        self.lemmas = []              # chart-consistency lemmas (name, lhs, rhs)
+        self.moving_derived = None    # the body whose pose is derived from the chart (its velocity needs the chart lemmas)
         if kind in ("two moving bodies", "body1 is Ground"):
             if kind == "two moving bodies":
                 self.w1, self.v1, p1 = v3(t + "w1"), v3(t + "v1"), v3(t + "p1")
@@ -392,11 +396,10 @@ class Scen:
             p_GM = p_GF + R_GF * p_FM
             R_GB2 = R_GM; X_B2M = XF(None, pM)
             p_GB2 = p_GM - R_GB2 * pM
-            self.w2 = self.w1 + plain(R_GM) * self.omega
-            self.v2 = dpart(p_GB2) if dual else None
-            if dual:
-                self.lemmas.append(("body 2 of the chart moves with the angular velocity handed to the code: d/dt R_GB2 == [w_GB2]x R_GB2, w_GB2 = w_GB1 + R_GM omega",
-                                    dpart(R_GB2), crossMat(self.w2) * plain(R_GB2)))
+            self.w2 = self.w1 + plain(R_GF) * self.omegaF
+            # velocity of body 2's origin: rigid-body transfer from OM (d/dt p_GM is computed by the dual arithmetic from the chart)
+            self.v2 = dpart(p_GM) - cross(self.w2, plain(R_GB2) * pM)
+            self.moving_derived = dict(name="body 2", R=R_GB2, w=self.w2, p=p_GB2, v=self.v2, p_frame=p_GM, arm=pM)
         elif kind == "body2 is Ground":
             self.w2, self.v2 = zero3, zero3
             R_GB2 = I3; p_GB2 = zero3
@@ -409,10 +412,8 @@ class Scen:
             R_GB1 = R_GF; X_B1F = XF(None, pF)
             p_GB1 = p_GF - R_GB1 * pF
             self.w1 = -(Rg * self.omega)
-            self.v1 = dpart(p_GB1) if dual else None
-            if dual:
-                self.lemmas.append(("body 1 of the chart moves with the angular velocity handed to the code: d/dt R_GB1 == [w_GB1]x R_GB1, w_GB1 = -R_GM omega",
-                                    dpart(R_GB1), crossMat(self.w1) * plain(R_GB1)))
+            self.v1 = dpart(p_GF) - cross(self.w1, plain(R_GB1) * pF)
+            self.moving_derived = dict(name="body 1", R=R_GB1, w=self.w1, p=p_GB1, v=self.v1, p_frame=p_GF, arm=pF)
         else:
             self.w1, self.v1, p1 = v3(t + "w1"), v3(t + "v1"), v3(t + "p1")
             R_GB1 = moving(Rg, self.w1); p_GB1 = dualvec(p1, self.v1)
@@ -425,9 +426,6 @@ class Scen:
         self.R_GF, self.R_GM, self.p_GF, self.p_GM, self.p_FM = R_GF, R_GM, p_GF, p_GM, p_FM
         self.X_GB1, self.X_GB2 = XF(R_GB1, p_GB1), XF(R_GB2, p_GB2)
         self.X_B1F, self.X_B2M = X_B1F, X_B2M
-        if not dual or self.v1 is None or self.v2 is None:
-            self.v1 = self.v1 if self.v1 is not None else zero3
-            self.v2 = self.v2 if self.v2 is not None else zero3
         same = kind == "both frames on one body"
         b1 = MBody("B1", self.X_GB1, S.SpatialVec(self.w1, self.v1), self.counter)
         b2 = b1 if same else MBody("B2", self.X_GB2, S.SpatialVec(self.w2, self.v2), self.counter)
